@@ -10,36 +10,30 @@ Open Scope Z_scope.
 Ltac Zify.zify_post_hook ::= Z.div_mod_to_equations.
 
 (* --- an induction principle for the nested type of schemas ------------ *)
-Section TyInd.
-  Variable P : ty -> Prop.
-  Hypothesis HInt : P TInt.
-  Hypothesis HI32 : P TI32.
-  Hypothesis HU16 : P TU16.
-  Hypothesis HU64 : P TU64.
-  Hypothesis HBool : P TBool.
-  Hypothesis HStr : P TStr.
-  Hypothesis HBig : P TBig.
-  Hypothesis HList : forall t, P t -> P (TList t).
-  Hypothesis HRec : forall fs, Forall (fun nt => P (snd nt)) fs -> P (TRec fs).
-  Hypothesis HUnion : forall fs, Forall (fun nt => P (snd nt)) fs -> P (TUnion fs).
-  Fixpoint ty_ind' (t : ty) : P t :=
-    match t with
-    | TInt => HInt | TI32 => HI32 | TU16 => HU16 | TU64 => HU64 | TBool => HBool | TStr => HStr | TBig => HBig
-    | TList te => HList te (ty_ind' te)
-    | TRec fs =>
-        HRec fs ((fix go (fs : list (string * ty)) : Forall (fun nt => P (snd nt)) fs :=
+Fixpoint ty_ind' (P : ty -> Prop)
+    (HInt : P TInt) (HI32 : P TI32) (HU16 : P TU16) (HU64 : P TU64) (HBool : P TBool)
+    (HStr : P TStr) (HBig : P TBig)
+    (HList : forall t, P t -> P (TList t))
+    (HRec : forall fs, Forall (fun nt => P (snd nt)) fs -> P (TRec fs))
+    (HUnion : forall fs, Forall (fun nt => P (snd nt)) fs -> P (TUnion fs))
+    (t : ty) {struct t} : P t :=
+  let rec := ty_ind' P HInt HI32 HU16 HU64 HBool HStr HBig HList HRec HUnion in
+  match t with
+  | TInt => HInt | TI32 => HI32 | TU16 => HU16 | TU64 => HU64 | TBool => HBool | TStr => HStr | TBig => HBig
+  | TList te => HList te (rec te)
+  | TRec fs =>
+      HRec fs ((fix go (fs : list (string * ty)) : Forall (fun nt => P (snd nt)) fs :=
+                  match fs with
+                  | [] => Forall_nil _
+                  | nt :: r => Forall_cons nt (rec (snd nt)) (go r)
+                  end) fs)
+  | TUnion fs =>
+      HUnion fs ((fix go (fs : list (string * ty)) : Forall (fun nt => P (snd nt)) fs :=
                     match fs with
                     | [] => Forall_nil _
-                    | nt :: r => Forall_cons nt (ty_ind' (snd nt)) (go r)
+                    | nt :: r => Forall_cons nt (rec (snd nt)) (go r)
                     end) fs)
-    | TUnion fs =>
-        HUnion fs ((fix go (fs : list (string * ty)) : Forall (fun nt => P (snd nt)) fs :=
-                      match fs with
-                      | [] => Forall_nil _
-                      | nt :: r => Forall_cons nt (ty_ind' (snd nt)) (go r)
-                      end) fs)
-    end.
-End TyInd.
+  end.
 
 (* --- decoder state = what the encoder wrote, followed by anything ------ *)
 Definition after (o : out) (p' s' : bytes) : dst := {| d_p := o_p o ++ p'; d_s := o_s o ++ s' |}.
